@@ -2747,7 +2747,8 @@ class PGPKeyring(collections_abc.Container, collections_abc.Iterable, collection
 
         # this is an alias that already exists, but points to a key that is not already referenced by it
         else:
-            adepth = len(self._aliases) - len([None for m in self._aliases if alias in m]) - 1
+            # use the first alias map that does not have this alias yet
+            adepth = next((depth for depth, m in enumerate(self._aliases) if alias not in m), -1)
             # all alias maps have this alias, so increase total depth by 1
             if adepth == -1:
                 self._aliases.appendleft({})
